@@ -66,8 +66,13 @@ def make_find(p):
         for i, ch in enumerate(cf["main.py"]):
             if ch == "\n":
                 lines.append(i + 1)
-        a = lines[choose("start_line", len(lines))]
-        b = lines[choose("end_line", len(lines))]
+        from harness.bcommon import occurrences_of_slots
+
+        # bounds range over the line starts and over every identifier occurrence (start and end of
+        # the token), so that a region may begin or end inside an instance
+        marks = sorted(set(lines) | {o for _p, _k, o in occurrences_of_slots(s, names)})
+        a = marks[choose("start_mark", len(marks))]
+        b = marks[choose("end_mark", len(marks))]
         if a >= b:
             raise PathAbort()
         with SymProject() as sp:
